@@ -24,7 +24,7 @@ PROPS = {
                 rule='builder cases; non-trivial = some function has rank > 0; distinct = distinct call sequence',
                 exhaustive_scope='every edge subset on n<=4 nodes in two insertion orders',
                 explanation='theorem: rank = length of the longest chain of user edges ending at the function'),
-    'C14': dict(bundle='builder', tags=['TI', 'TS', 'TR', 'TM', 'FO', 'FE', 'TN', 'TNM', 'TNI', 'TF', 'TE'], kinds=['B'], monitor=rb.mon_c14,
+    'C14': dict(bundle='builder', tags=['TI', 'TS', 'TR', 'TM', 'FO', 'FE', 'TN', 'TNM', 'TNI', 'TF', 'TE', 'PM1', 'PM2', 'PM3', 'PM4'], kinds=['B'], monitor=rb.mon_c14,
                 nontrivial=lambda c: c.obs.get('E', '-') != '-',
                 rule='builder cases; every sequential iterator walked; try_fold/try_for_each with each (n<=4) or two random failing positions; non-trivial = graph with at least one edge',
                 exhaustive_scope='every edge subset on n<=4 nodes, every failing position',
